@@ -23,7 +23,7 @@ RULE = (
     "unrecognised non-blank line, carrying the line, in order; deleting junk/blank lines gives a bit-identical graph; all six loader entry "
     "points give bit-identical graphs. Non-trivial = the file mixes >= 3 line kinds and contains junk or a non-repr number format."
 )
-BUDGET = {"quick": 16 * 500, "thorough": 16 * 15000}
+BUDGET = {"quick": 16 * 2000, "thorough": 16 * 15000}
 TOLERANCES = {
     "numbers": "bit-identical",
     "SE2 angles": "in [-pi,pi], exact rational distance mod 2pi <= 8*eps*(|theta|+pi)",
